@@ -87,6 +87,11 @@ func (h *bridgeListHolder) LoadBridgeInfo(reader io.Reader) error {
 
 		bridgeInfoMap[bridgeFingerprint] = bridgeInfo
 	}
+	// The scanner stops at a read error and at a line longer than its
+	// buffer; what was read up to there is not the file.
+	if err := inputScanner.Err(); err != nil {
+		return err
+	}
 	h.accessBridgeInfo.Lock()
 	defer h.accessBridgeInfo.Unlock()
 	h.bridgeInfo = bridgeInfoMap
